@@ -15,6 +15,8 @@ import DracoProofs.EncBuf
 import Generated.Constants
 import Generated.FastDivTab
 import DracoProofs.GeneratedCore
+import DracoProofs.GeneratedBytes
+import DracoProofs.GeneratedBits
 /-
   C17 — "Every primitive writer/reader pair of the bitstream layer is an exact inverse for all
   values: variable-length integers of every width and sign, byte-aligned scalars, bit sequences
@@ -331,5 +333,104 @@ theorem source_ofSymbol_is_model (v : Int) (hv : U32 v) :
     ConvertSymbolToSignedInt v = ofSymbol v.toNat := ConvertSymbolToSignedInt_eq_model v hv
 example : Generated.ConvertSymbolToSignedInt 5 = -3 := by
   rw [source_ofSymbol_is_model _ (by decide)]; decide
+
+open Generated in
+/-- `ans_write_end` (ans.h), with `mem_put_le16/24` which it calls: the bytes it stores at `buf[buf_offset ..]` (in
+    order, at consecutive offsets) and the size it returns are those of `ansWriteEnd`, for every 32-bit state — in
+    particular the 1/2/3-byte size classes `state − L < 2^6, 2^14, 2^22` -/
+theorem source_ansWriteEnd_is_model (a : AnsCoder) (hs : a.state < 2^32) (hl : a.out.length + 3 < 2^31) :
+    let g := ans_write_end ⟨a.out.length, a.state⟩
+    (ansWriteEnd a).map Int.ofNat = a.out.reverse.map Int.ofNat ++ g.2.map Prod.snd ∧
+    g.2.map Prod.fst = (List.range g.2.length).map (fun i => ((a.out.length + i : Nat) : Int)) ∧
+    g.1 = (ansWriteEnd a).length := ans_write_end_eq_model a hs hl
+example : (Generated.ans_write_end ⟨1, 4096 + 64⟩) = (3, [(1, 64), (2, 64)]) ∧ ansWriteEnd ⟨4096 + 64, [7]⟩ = [7, 64, 64] := by
+  decide
+
+open Generated in
+/-- `EncodeVarint<uint32_t>` (core/varint_encoding.h; its recursion unrolled with fuel 5) returns true and appends
+    `encVarint v` to the buffer, for every `uint32_t` -/
+theorem source_encodeVarint32_is_model (v : Int) (hv : U32 v) :
+    EncodeVarint_u32 5 v = some (true, (encVarint v.toNat).map Int.ofNat) := EncodeVarint_u32_eq_model v hv
+example : Generated.EncodeVarint_u32 5 300 = some (true, [172, 2]) := by
+  rw [source_encodeVarint32_is_model _ (by decide)]; decide
+
+open Generated in
+/-- `EncodeVarint<uint64_t>` (fuel 10) appends `encVarint v`, for every `uint64_t` -/
+theorem source_encodeVarint64_is_model (v : Int) (h0 : 0 ≤ v) (h1 : v < 2^64) :
+    EncodeVarint_u64 10 v = some (true, (encVarint v.toNat).map Int.ofNat) := EncodeVarint_u64_eq_model v h0 h1
+example : Generated.EncodeVarint_u64 10 (2^63) = some (true, [128, 128, 128, 128, 128, 128, 128, 128, 128, 1]) := by
+  rw [source_encodeVarint64_is_model _ (by decide) (by decide)]; decide
+
+open Generated in
+/-- the recursion limit of `DecodeVarintUnsigned<uint32_t / uint64_t>` (the declaration of `max_depth` and the test
+    `if (depth > max_depth) return false;`, cut out of the translated function): `max_depth` is `varintMaxDepth w` — the
+    byte budget of the model's `decVarint w` — and the call fails exactly beyond it -/
+theorem source_varintMaxDepth_is_model (depth : Int) (h0 : 0 ≤ depth) (h1 : depth < 2^31) :
+    DecodeVarintUnsigned_depthCheck_u32 depth =
+      (if depth > (varintMaxDepth 32 : Nat) then some false else none, ((varintMaxDepth 32 : Nat) : Int)) ∧
+    DecodeVarintUnsigned_depthCheck_u64 depth =
+      (if depth > (varintMaxDepth 64 : Nat) then some false else none, ((varintMaxDepth 64 : Nat) : Int)) :=
+  ⟨DecodeVarintUnsigned_depthCheck_u32_eq_model depth h0 h1, DecodeVarintUnsigned_depthCheck_u64_eq_model depth h0 h1⟩
+example : Generated.DecodeVarintUnsigned_depthCheck_u32 6 = (some false, 5) ∧
+    Generated.DecodeVarintUnsigned_depthCheck_u64 10 = (none, 10) := by decide
+
+open Generated in
+/-- `ans_read_init` on any buffer `pre ++ [top]` whose last byte announces size class 0: failure ↔ the model's `none`;
+    on success the state and `buf_offset` are the model's (`Generated.ansInitAgrees`) -/
+theorem source_ansReadInit_is_model_x0 (a : Generated.AnsDecoder) (pre : List Nat) (top : Nat)
+    (hpre : ∀ b ∈ pre, b < 256) (htop : top < 256) (hx : top / 64 = 0) (hlen : pre.length + 1 < 2^31) :
+    ansInitAgrees (ans_read_init a (bufOf (pre ++ [top])) ((pre ++ [top]).length : Nat)) (ansReadInit (pre ++ [top])) :=
+  ans_read_init_agrees_x0 a pre top hpre htop hx hlen
+open Generated in
+/-- `ans_read_init` on any buffer `pre ++ [b1, top]` whose last byte announces size class 1: failure ↔ the model's `none`;
+    on success the state and `buf_offset` are the model's (`Generated.ansInitAgrees`) -/
+theorem source_ansReadInit_is_model_x1 (a : Generated.AnsDecoder) (pre : List Nat) (b1 top : Nat)
+    (hpre : ∀ b ∈ pre, b < 256) (hb1 : b1 < 256) (htop : top < 256) (hx : top / 64 = 1) (hlen : pre.length + 2 < 2^31) :
+    ansInitAgrees (ans_read_init a (bufOf (pre ++ [b1, top])) ((pre ++ [b1, top]).length : Nat)) (ansReadInit (pre ++ [b1, top])) :=
+  ans_read_init_agrees_x1 a pre b1 top hpre hb1 htop hx hlen
+open Generated in
+/-- `ans_read_init` on any buffer `pre ++ [b2, b1, top]` whose last byte announces size class 2: failure ↔ the model's `none`;
+    on success the state and `buf_offset` are the model's (`Generated.ansInitAgrees`) -/
+theorem source_ansReadInit_is_model_x2 (a : Generated.AnsDecoder) (pre : List Nat) (b2 b1 top : Nat)
+    (hpre : ∀ b ∈ pre, b < 256) (hb2 : b2 < 256) (hb1 : b1 < 256) (htop : top < 256) (hx : top / 64 = 2) (hlen : pre.length + 3 < 2^31) :
+    ansInitAgrees (ans_read_init a (bufOf (pre ++ [b2, b1, top])) ((pre ++ [b2, b1, top]).length : Nat)) (ansReadInit (pre ++ [b2, b1, top])) :=
+  ans_read_init_agrees_x2 a pre b2 b1 top hpre hb2 hb1 htop hx hlen
+example : Generated.ansInitAgrees (Generated.ans_read_init ⟨0, 0⟩ (Generated.bufOf ([9] ++ [64, 64])) (3 : Nat))
+    (ansReadInit ([9] ++ [64, 64])) :=
+  source_ansReadInit_is_model_x1 _ [9] 64 64 (by decide) (by decide) (by decide) (by decide) (by decide)
+
+open Generated in
+/-- `DecodeVarintUnsigned<uint32_t>` / `<uint64_t>` as a whole — `buffer->Decode(&in)` as a byte source with a position, the
+    recursion unrolled with fuel `max_depth + 1` — is the model's `decVarint 32` / `decVarint 64`: it fails exactly when the
+    model does; otherwise it stores the model's value and leaves the model's rest of the stream -/
+theorem source_decodeVarint_is_model (v0 : Int) (bs : List Nat) (hb : ∀ b ∈ bs, b < 256) :
+    (match decVarint 32 bs with
+     | none => ∃ v' r', DecodeVarintUnsigned_u32 6 1 v0 (bs.map Int.ofNat) = some (false, v', r')
+     | some (v, rest) => DecodeVarintUnsigned_u32 6 1 v0 (bs.map Int.ofNat) = some (true, (v : Int), rest.map Int.ofNat)) ∧
+    (match decVarint 64 bs with
+     | none => ∃ v' r', DecodeVarintUnsigned_u64 11 1 v0 (bs.map Int.ofNat) = some (false, v', r')
+     | some (v, rest) => DecodeVarintUnsigned_u64 11 1 v0 (bs.map Int.ofNat) = some (true, (v : Int), rest.map Int.ofNat)) :=
+  ⟨DecodeVarintUnsigned_u32_eq_model v0 bs hb, DecodeVarintUnsigned_u64_eq_model v0 bs hb⟩
+example : Generated.DecodeVarintUnsigned_u32 6 1 0 [172, 2, 9] = some (true, 300, [9]) := by decide
+
+open Generated in
+/-- `ReverseBits32` and `CountOneBits32` (core/bit_utils.h) are the model's `reverseBits32` / `countOneBits32` on every
+    `uint32_t` -/
+theorem source_bitUtils_is_model (n : Nat) (hn : n < 2^32) :
+    ReverseBits32 (n : Int) = (reverseBits32 n : Int) ∧ CountOneBits32 (n : Int) = (countOneBits32 n : Int) :=
+  ⟨ReverseBits32_eq_model n hn, CountOneBits32_eq_model n hn⟩
+example : Generated.ReverseBits32 (1 : Nat) = 2147483648 ∧ Generated.CountOneBits32 (255 : Nat) = 8 := by
+  have := source_bitUtils_is_model 1 (by decide)
+  have h := source_bitUtils_is_model 255 (by decide)
+  exact ⟨by rw [this.1]; decide, by rw [h.2]; decide⟩
+
+open Generated in
+/-- `CopyBits32(&dst, dst_offset, src, src_offset, nbits)` (core/bit_utils.h; the new `*dst`) is the model's `copyBits32`
+    for every `uint32_t` destination, any source and offsets, `nbits ≤ 32` -/
+theorem source_copyBits32_is_model (dst dOff src sOff nbits : Nat) (hd : dst < 2^32) (hn : nbits ≤ 32) :
+    CopyBits32 (dst : Int) (dOff : Int) (src : Int) (sOff : Int) (nbits : Int) =
+      (copyBits32 dst dOff src sOff nbits : Int) := CopyBits32_eq_model dst dOff src sOff nbits hd hn
+example : Generated.CopyBits32 (0 : Nat) (4 : Nat) (255 : Nat) (0 : Nat) (3 : Nat) = 112 := by
+  rw [source_copyBits32_is_model 0 4 255 0 3 (by decide) (by decide)]; decide
 
 end Draco.C17
